@@ -178,8 +178,50 @@ class SymPaths:
     def expand(self, expr, path):
         return _Expand(self, path).visit(copy.deepcopy(expr))
 
+    def cond(self, test, path):
+        """evaluate a test lazily (operands of and/or/not and conditional expressions in evaluation order, so calls that are
+        short-circuited are not recorded)  -> (paths where it is true, paths where it is false)"""
+        if isinstance(test, ast.UnaryOp) and isinstance(test.op, ast.Not):
+            t, f = self.cond(test.operand, path)
+            return f, t
+        if isinstance(test, ast.BoolOp):
+            is_and = isinstance(test.op, ast.And)
+            cur, done_ = [path], []
+            for v in test.values:
+                nxt = []
+                for q in cur:
+                    t, f = self.cond(v, q)
+                    if is_and:
+                        nxt += t
+                        done_ += f
+                    else:
+                        nxt += f
+                        done_ += t
+                cur = nxt
+                if len(cur) + len(done_) > self.max_paths:
+                    raise Unsupported('test splits into more than %d cases' % self.max_paths)
+            return (cur, done_) if is_and else (done_, cur)
+        if isinstance(test, ast.IfExp):
+            t, f = self.cond(test.test, path)
+            T, Fa = [], []
+            for q in t:
+                a, b = self.cond(test.body, q)
+                T += a
+                Fa += b
+            for q in f:
+                a, b = self.cond(test.orelse, q)
+                T += a
+                Fa += b
+            return T, Fa
+        T, Fa = [], []
+        for q, v in self.ev(test, path):
+            a, b = self.split(v, q)
+            T += a
+            Fa += b
+        return T, Fa
+
     def split(self, test, path):
-        """-> (paths where test is true, paths where it is false); test is an already expanded expression"""
+        """-> (paths where test is true, paths where it is false); test is an already evaluated (expanded) expression"""
         if isinstance(test, ast.UnaryOp) and isinstance(test.op, ast.Not):
             t, f = self.split(test.operand, path)
             return f, t
@@ -259,8 +301,7 @@ class SymPaths:
 
     def ev(self, e, path):
         if isinstance(e, ast.IfExp):
-            test = self.expand(e.test, path)
-            t, f = self.split(test, path)
+            t, f = self.cond(e.test, path)
             out = []
             for q in t:
                 out += self.ev(e.body, q)
@@ -366,8 +407,40 @@ class SymPaths:
                 self.assign(t, ast.Subscript(value=value, slice=ast.Constant(value=i), ctx=ast.Load()), path)
         else:
             tgt = self.expand_target(target, path)
+            self.freeze_store(path, tgt)
             path.stores = path.stores + ((tgt, value, path.conds),)
             path.events = path.events + (('=', ast.Assign(targets=[tgt], value=value), path.conds),)
+
+    def freeze_store(self, path, tgt):
+        """a store to <obj>.f (or <obj>[i]) changes what later reads of any `.f` (any subscript of that object) see: bindings
+        and assumed tests that read it are frozen / made stale first (field-name granularity, so aliases are covered)"""
+        def reads(e):
+            for n in ast.walk(e):
+                if isinstance(tgt, ast.Attribute) and isinstance(n, ast.Attribute) and n.attr == tgt.attr:
+                    return True
+                if isinstance(tgt, ast.Subscript) and isinstance(n, ast.Subscript) and src_of(n.value) == src_of(tgt.value):
+                    return True
+                if isinstance(tgt, ast.Subscript) and isinstance(n, (ast.Name, ast.Attribute)) and src_of(n) == src_of(tgt.value) and not isinstance(n.ctx, ast.Store):
+                    return True
+            return False
+        hit = [name for name, val in path.env.items() if reads(val)]
+        stale = []
+        for src, pol in path.conds:
+            if '@' in src:
+                continue
+            try:
+                if reads(ast.parse(src, mode='eval').body):
+                    stale.append(src)
+            except SyntaxError:
+                stale.append(src)
+        if not hit and not stale:
+            return
+        self.nfreeze += 1
+        for name in hit:
+            sym = '_s%d_%s' % (self.nfreeze, name)
+            self.snaps[sym] = (name, path.env[name], len(path.events))
+            path.env[name] = ast.Name(id=sym, ctx=ast.Load())
+        path.conds = tuple((('%s@%d' % (src, self.nfreeze)) if src in stale else src, pol) for src, pol in path.conds)
 
     def expand_target(self, target, path):
         t = copy.deepcopy(target)
@@ -437,6 +510,14 @@ class SymPaths:
 
     def havoc(self, stmt, path):
         self.nhavoc += 1
+        # a loop / try block may call and store anything: freeze what reads the heap, make heap tests stale
+        self.nfreeze += 1
+        for name, val in list(path.env.items()):
+            if any(isinstance(n, (ast.Attribute, ast.Subscript)) for n in ast.walk(val)):
+                sym = '_s%d_%s' % (self.nfreeze, name)
+                self.snaps[sym] = (name, val, len(path.events))
+                path.env[name] = ast.Name(id=sym, ctx=ast.Load())
+        path.conds = tuple((('%s@%d' % (src, self.nfreeze)) if '@' not in src and self._stale(src, set()) else src, pol) for src, pol in path.conds)
         for n in ast.walk(stmt):
             if isinstance(n, ast.Name) and isinstance(n.ctx, ast.Store):
                 path.env[n.id] = ast.Name(id='_h%d_%s' % (self.nhavoc, n.id), ctx=ast.Load())
@@ -560,8 +641,7 @@ class SymPaths:
                 return [path]
             return [q for q, _ in self.value_paths(st.value, path)]
         if isinstance(st, ast.If):
-            test = self.expand(st.test, path)
-            t, f = self.split(test, path)
+            t, f = self.cond(st.test, path)
             return self.block(st.body, t, done) + self.block(st.orelse, f, done)
         if isinstance(st, ast.Return):
             if st.value is None:
